@@ -1307,6 +1307,70 @@ func ruleFM6(c *Ctx) *rule {
 	return r
 }
 
+// ---- PR5: no line scanner over the input whose error is ignored ----------------------------------------------------------------------
+
+func rulePR5(c *Ctx) *rule {
+	r := &rule{ID: "PR5", Engine: "E3", Floor: 1,
+		Statement: "in the lexer, parser, ast and token packages every bufio.Scanner has its Err() consulted (or no scanner is used at all: the pinned tree splits the input with strings functions)",
+		Necessity: "a bufio.Scanner stops silently at a line longer than its buffer (64 KiB by default): a line lookup built on one returns an empty quote for every error after such a line, so a syntax error no longer quotes its line"}
+	fns, scanners := 0, 0
+	seenAt := map[string]bool{}
+	for _, f := range c.ModFuncs {
+		switch shortPkg(fnPkgPath(f)) {
+		case "lexer", "parser", "ast", "token":
+		default:
+			continue
+		}
+		fns++
+		for _, site := range callSites(f) {
+			if calleeName(site.Common()) != "bufio.NewScanner" {
+				continue
+			}
+			sc, isVal := site.(ssa.Value)
+			if !isVal {
+				continue
+			}
+			// one obligation per scanner of the source: inlined copies of a helper share its position
+			if seenAt[c.ipos(site)] {
+				continue
+			}
+			seenAt[c.ipos(site)] = true
+			scanners++
+			key := fmt.Sprintf("bufio.NewScanner#%d (seen in %s)", scanners, fname(f))
+			errSeen, bufSet := false, false
+			for _, g := range closuresOf(f) {
+				for _, cs := range callSites(g) {
+					n := calleeName(cs.Common())
+					if (n != "(*bufio.Scanner).Err" && n != "(*bufio.Scanner).Buffer") || len(cs.Common().Args) == 0 {
+						continue
+					}
+					for _, o := range origins(cs.Common().Args[0]) {
+						if o == sc {
+							if n == "(*bufio.Scanner).Err" {
+								errSeen = true
+							} else {
+								bufSet = true
+							}
+						}
+					}
+				}
+			}
+			switch {
+			case errSeen:
+				r.ok(key, c.ipos(site), "Err() of this scanner is consulted")
+			case bufSet:
+				r.undecided(key, c.ipos(site), "the scanner's buffer is sized by hand and Err() is never consulted: whether every line fits is a value-level question")
+			default:
+				r.bad(key, c.ipos(site), "Err() of this scanner is never consulted: the scan ends silently at a line longer than 64 KiB and every later line is missing from what is looked up")
+			}
+		}
+	}
+	if scanners == 0 {
+		r.ok("lexer/parser/ast/token line scanners", "-", fmt.Sprintf("%d functions inspected: no bufio.Scanner is used", fns))
+	}
+	return r
+}
+
 // ---- PR4: lexer and parser look at the same text ---------------------------------------------------------------------------------------
 
 func rulePR4(c *Ctx) *rule {
@@ -1411,7 +1475,7 @@ func parseProperties() []*propertySpec {
 			Explanation: "Only the error-reporting and scan-termination clauses are structural and are what this check decides: PR1/PR2 (typed syntax tree, object identity of identifiers) prove that every ERROR arm of the parser reports the tested token's own Value and that every illegalToken quotes the line of the token it cites; LX1 proves on the lexer's state-function graph (recovered from the function constants each state can return) that a scan ends only through l.error (which sends an ERROR token) or directly after emit(EOF), and that run closes the channel after the state loop; LX2 proves every state path from the LBRACE state reaches the RBRACE state or an error before any EOF-emitting state; PR3 proves every token loop of the parser calls next() on every way round and is left on ERROR. Totality / absence of panics over all byte strings is NOT decided.",
 			NotCovered:  []string{"totality and absence of panics (index arithmetic in getLine, rune decoding) over all byte strings", "that each lexer state consumes input (cursor arithmetic)", "that cited line numbers are within 1..lines"},
 			Assumptions: []string{"a receive from the closed token channel yields the zero token, whose type is token.EOF"},
-			Rules:       []func(*Ctx) *rule{rulePR1, rulePR2, rulePR3, rulePR4, ruleLX1, ruleLX2, ruleFM6}},
+			Rules:       []func(*Ctx) *rule{rulePR1, rulePR2, rulePR3, rulePR4, rulePR5, ruleLX1, ruleLX2, ruleFM6}},
 		{ID: "C15", Title: "Formatting keeps every comment and every task's docstring",
 			Explanation: "FM1 proves by a may-be-empty analysis over the SSA form of every String() method of the node types the parser appends (Comment, Assign, Task) that no return path prints the empty string, and that Tree.Write prints every node once, in order; FM2 proves by edge dominance that a parsed comment becomes a docstring only under the guard that the very next token is the task keyword, is never carried over from another iteration, and that Task.String prints it before the keyword; FM3 proves by path enumeration that every way round the parse loop appends exactly one node.",
 			NotCovered:  []string{"preservation of the comment text itself and of order (value-level)", "comments inside task bodies (the lexer rejects them)"},
